@@ -107,25 +107,35 @@ func classifyCompile(output string) (string, string) {
 	return "compile:" + norm, first
 }
 
-// operationIDHasLineBreak: some operationId of the document contains CR or LF
-// (the templates copy it into a // comment).
-func operationIDHasLineBreak(spec string) bool {
-	var doc struct {
-		Paths map[string]map[string]struct {
-			OperationID string `json:"operationId"`
-		} `json:"paths"`
-	}
+// nameHasLineBreak: some name a spec author writes (operationId, parameter name, property name,
+// component key) contains CR or LF; the templates copy names into // comments.
+func nameHasLineBreak(spec string) bool {
+	var doc any
 	if jsonUnmarshal([]byte(spec), &doc) != nil {
 		return false
 	}
-	for _, item := range doc.Paths {
-		for _, op := range item {
-			if strings.ContainsAny(op.OperationID, "\r\n") {
-				return true
+	found := false
+	var walk func(v any, key string)
+	walk = func(v any, key string) {
+		switch x := v.(type) {
+		case map[string]any:
+			for k, e := range x {
+				if (key == "properties" || key == "schemas" || key == "headers") && strings.ContainsAny(k, "\r\n") {
+					found = true
+				}
+				if s, ok := e.(string); ok && (k == "operationId" || k == "name") && strings.ContainsAny(s, "\r\n") {
+					found = true
+				}
+				walk(e, k)
+			}
+		case []any:
+			for _, e := range x {
+				walk(e, key)
 			}
 		}
 	}
-	return false
+	walk(doc, "")
+	return found
 }
 
 type item struct {
@@ -172,8 +182,8 @@ func runItems(u *vk.Unit, tag string, items []Case, label func(Case) string) {
 			u.T.Errorf("HARNESS: glue for %s: %s", c.Name, out.Err)
 		default:
 			cl := "generator-" + out.Class
-			if out.Class == regen.GoFormat && operationIDHasLineBreak(c.Spec) {
-				cl = "go-format-line-break-in-operation-id"
+			if out.Class == regen.GoFormat && nameHasLineBreak(c.Spec) {
+				cl = "go-format-line-break-in-name"
 			}
 			u.Report(vk.F(cl, "%s: generation ends with %s: %s", c.Name, out.Class, tail(out.Err, 700)), c)
 		}
